@@ -124,6 +124,27 @@ CHECKS['C08'] = dict(text="Theorems: the decision kernel comms._has_worker_timed
   "blocked x 10t..3600 s) with latency measured. Partial: wall-clock latency (handler period 0.1 s, signal delivery) is measured, not "
   "proved.", ref="5/C08",
   technique="Coq proof (translated kernel + timeline induction; failure-path model) + kernel differential + latency oracle")
+CHECKS['C18'] = dict(text="Theorems: (Core, all schedules and configurations, restarts included) the per-worker completed-task counters -- "
+  "incremented once per task right after the user function, read off worker._run_func -- have one entry per worker id and sum to the "
+  "number of tasks executed so far, and to the number of tasks of the call when it is done; the top-5 selection of get_insights "
+  "(argsort, last five reversed, break at 0, skip unsynced args: read off the source) returns at most five real (duration, args) slots in "
+  "decreasing order with non-zero durations and non-empty argument strings; the five ratios (exact rationals) lie in [0,1] and sum to "
+  "T/(T+1e-8). Tie: structural kernels + Spec lemmas; the REAL get_insights on random counter states against the Coq model (vm_compute) "
+  "and an exact-fraction reference; end-to-end sums against the user function's own invocation log over keep-alive / non-keep-alive "
+  "sequences, lifespans, numpy input, 4 start methods, {} when disabled. Partial: binary64 rounding of the ratios and the per-instance "
+  "heapq bookkeeping (TimeIt) are covered by the differential and the oracle only; counters reset exactly when workers start is a "
+  "source fact plus oracle.", ref="5/C18",
+  technique="Coq proof (counting over all schedules; sorting / selection lemmas; rational arithmetic) + kernel differential + invocation-log oracle")
+CHECKS['C19'] = dict(text="Theorems over the Progress model (every interleaving of task completions on any worker -- flushing or batching as the "
+  "0.1 s interval decides --, forced flushes at poison pill / end of lifespan, and handler rounds bar += sum(counters) - bar; bodies read "
+  "off comms.task_completed_progress_bar, get_tasks_completed_progress_bar and the handler loop): the displayed count never decreases, "
+  "never exceeds the number of items really processed nor the total, and once all items are processed and every worker has flushed the "
+  "next handler round shows exactly the total; a forced flush leaves nothing behind. Tie: structural kernels + Spec lemmas; the REAL "
+  "task_completed_progress_bar with the clock replaced against the Coq kernel; end to end every update of the real bar object (all "
+  "styles) recorded through the guarded hook over n incl. 0, sized / unsized / numpy inputs, lifespans, consecutive calls with and "
+  "without keep_alive, 4 start methods. Partial: tqdm's rendering and the update_total path for unknown lengths are observed, not "
+  "modelled; the tqdm lock restoration is checked under C05.", ref="5/C19",
+  technique="Coq proof (counter invariant over all interleavings) + kernel differential + bar-update oracle")
 PENDING = {}
 props = [json.loads(l) for l in open(os.path.join(V, 'properties.jsonl'))]
 m = dict(version=1,
